@@ -230,6 +230,8 @@ def levels(cx, d, mode, width):
     yield (lambda h: ('try', i, h, True, L, True, ('log', d + 40))), cx
     yield (lambda h: ('try', i, T, True, h, True, L)), cx
     yield (lambda h: ('try', i, T, True, L, True, h)), cx
+    if narrow and mode != 'S':
+        yield (lambda h: ('try', i, ('ret', 4), False, ('skip',), True, h)), cx      # finally entered by a pending return
     ovs = overrides(cx, mode)
     for k, ov in enumerate(ovs if narrow else ovs[2:3]):
         yield (lambda h, ov=ov: ('try', i, h, False, ('skip',), True, ov)), cx
@@ -288,7 +290,10 @@ def rand_stmt(rng, d, cx, mode, st):
             return ('fatal',)
         if r < 0.45:
             return ('log', rng.randint(1, 9))
-        return rng.choice(ls)
+        x = rng.choice(ls)
+        if x[0] == 'ret':
+            return ('ret', rng.randint(1, 9))      # distinct values: an abandoned return must not leak its value
+        return x
     if d == 0:
         return leaf()
     st['n'] += 1
@@ -398,13 +403,9 @@ def py_oracle_available():
 
 # ----------------------------------------------------------------------------- the check
 
-Q1 = 'finally-throw-caught-by-own-catch'
-Q2 = 'uncatchable-error-closes-open-iterators'
-Q3 = 'generator-return-then-finally-throws'
 Q4 = 'compiler-panic-dead-code-after-branch-statement'
 Q5 = 'script-completion-value-not-reset'
-PROBE_Q1 = ('try', 1, ('log', 1), True, ('log', 2), True, ('thr', 8))
-PROBE_Q2 = ('forof', 1, 2, None, 'o', ('fatal',))
+Q6 = 'pending-return-value-clobbered-by-abandoned-return-in-finally'
 
 
 def split_try(s):
@@ -483,10 +484,10 @@ def size(s):
 class Checker:
     def __init__(self, ctx, harness, model):
         self.ctx, self.H, self.M = ctx, harness, model
-        self.kc = self.cof = None
         self.n_b = self.n_k = self.n_v = self.n_w = 0
-        self.bad = {'B': [], 'K': [], 'V': [], 'W': []}
-        self.known = {Q1: 0, Q2: 0, Q3: 0, Q4: 0, Q5: 0}
+        self.bad = {'B': [], 'K': [], 'V': [], 'W': [], 'S': []}
+        self.n_s1 = 0
+        self.known = {Q4: 0, Q5: 0, Q6: 0}
         self.known_example = {}
         self.compl_hist = {}
         self.mode_hist = {}
@@ -505,36 +506,19 @@ class Checker:
             return ['NO-MODEL'] * len(lines)
         return run_sharded(self.ctx, [self.M], lines)
 
-    def probe(self):
-        cs = [Case(PROBE_Q1, 'F'), Case(PROBE_Q2, 'F')]
-        g = self.goja_b(cs)
-        m = self.model_lines([c.bline() for c in cs])
-        self.kc = (g[0] != m[0])
-        self.cof = (g[1] != m[1])
-        self.ctx.stats['probe'] = {'Q1_goja': g[0], 'Q1_ref': m[0], 'Q2_goja': g[1], 'Q2_ref': m[1]}
-        return g, m
-
     def classify(self, case, g, m):
         return self.classify_many([(case, g, m)])[0]
 
     def classify_many(self, items):
-        """goja/refSem disagreements [(case, goja, ref)]: explained by a known defect?  signature or None each.
+        """goja/refSem disagreements [(case, goja, ref)]: explained by a defect still listed as `known`?  signature or None.
         All auxiliary runs (program rewritten so that one specific defect cannot fire) go through one batch."""
-        aux = []       # cases to run on goja
-        auxm = []      # cases whose reference result is needed
+        aux = []
         for (c, g, m) in items:
             aux.append(Case(strip_dead(c.prog), c.mode, c.fatal, c.deco))
-            aux.append(Case(split_try(c.prog), c.mode, c.fatal, c.deco))
-            aux.append(Case(split_try(c.prog), 'F', c.fatal, c.deco))
-            aux.append(Case(split_try(strip_dead(c.prog)), c.mode, c.fatal, c.deco))
-            auxm.append(Case(split_try(c.prog), 'F', c.fatal, c.deco))
         go = self.goja_b(aux) if aux else []
-        mo = self.model_lines([c.bline() for c in auxm]) if auxm else []
         out = []
         for k, (c, g, m) in enumerate(items):
-            g_sd, g_sp, g_f, g_sdsp = go[4 * k], go[4 * k + 1], go[4 * k + 2], go[4 * k + 3]
-            m_f = mo[k]
-            fat = has(c.prog, 'fatal')
+            g_sd = go[k]
             sig = None
             if c.mode == 'S' and value_only(g, m) and (has_do(c.prog) or nested_branch_in_finally(c.prog)):
                 # Q5: same log, both complete normally, only the script's completion VALUE differs, and the program
@@ -545,20 +529,9 @@ class Checker:
                 # its break/continue patch locations land in REAL blocks (Go panic or overwritten instructions);
                 # the disagreement disappears when the never-executed statements are removed
                 sig = Q4
-            elif fat and trim_after_fatal(g) == m:
-                sig = Q2                      # return() calls after the fatal event
-            elif has_cf(c.prog) and g_sp == m:
-                sig = Q1                      # splitting catch+finally into two statements removes the disagreement
-            elif has_cf(c.prog) and fat and trim_after_fatal(g_sp) == m:
-                sig = Q1 + '+' + Q2
-            elif c.mode == 'S' and has_cf(c.prog) and strip_dead(c.prog) != c.prog and g_sdsp == m:
-                sig = Q4 + '+' + Q1
-            elif c.mode == 'S' and has_cf(c.prog) and value_only(g_sp, m) and (has_do(c.prog) or nested_branch_in_finally(c.prog)):
-                sig = Q1 + '+' + Q5
-            elif c.mode == 'G' and ret_then_finally_throw(c.prog) and m_f == m and (g_f == m_f or (fat and trim_after_fatal(g_f) == m_f)):
-                # Q3: generator resumed by return(); a finally block entered for that return completes by a throw;
-                # the plain-function version of the program agrees with the reference semantics
-                sig = Q3
+            elif c.mode in 'FG' and return_value_only(g, m) and ret_in_finally(c.prog):
+                # Q6: same log, both return, only the returned VALUE differs, and some finally block contains a return
+                sig = Q6
             out.append(sig)
         return out
 
@@ -574,7 +547,7 @@ class Checker:
             full = c.mode == 'F' and do_kvw
             hl.append('%s %s%s %s @@ %s' % ('BK' if (full and c.deco == 0) else 'B', c.mode, c.fatal, t, js))
             if full:
-                ml.append('A %s%s %d %d %s' % (c.mode, c.fatal, 1 if self.cof else 0, 1 if self.kc else 0, t))
+                ml.append('A %s%s %s' % (c.mode, c.fatal, t))
             else:
                 ml.append('B %s%s %s' % (c.mode, c.fatal, t))
         gout = run_sharded(ctx, [self.H], hl) if self.H else ['NO-HARNESS'] * len(cases)
@@ -595,11 +568,22 @@ class Checker:
             ctx.count(1)
             if not have_model:
                 continue
-            if len(mparts) == 4:
-                v, w, km = mparts[1], mparts[2], mparts[3]
+            if len(mparts) == 5:
+                v, w, km, s1 = mparts[1], mparts[2], mparts[3], mparts[4]
+                if s1 != '-':
+                    self.n_s1 += 1
+                    if s1 != 'S1=':
+                        self.bad['S'].append((c, s1))
                 self.n_v += 1
                 if v != 'ok':
-                    self.bad['V'].append((c, v))
+                    import re as _re
+                    mm = _re.match(r'DIFF ref\[(.*)\] vm\[(.*)\]$', v)
+                    if mm and return_value_only(mm.group(2), mm.group(1)) and ret_in_finally(c.prog):
+                        # the mini-VM mirrors the code, including known finding Q6 (outside compileS_correct's hypotheses)
+                        self.known[Q6] = self.known.get(Q6, 0) + 1
+                        self.known_example.setdefault(Q6, (c, 'mini-VM: ' + mm.group(2), mm.group(1)))
+                    else:
+                        self.bad['V'].append((c, v))
                 if c.fatal == 'o' or not has(c.prog, 'fatal'):
                     self.n_w += 1
                     if w != g:
@@ -665,6 +649,18 @@ class Checker:
                     best, res, improved = c2, r2, True
                     break
         return best, res
+
+
+def return_value_only(g, m):
+    cg, _, lg = g.partition(' | ')
+    cm, _, lm = m.partition(' | ')
+    return lg == lm and cg.startswith('R:') and cm.startswith('R:') and cg != cm
+
+
+def ret_in_finally(s):
+    if s[0] == 'try' and s[5] and has(s[6], 'ret'):
+        return True
+    return any(ret_in_finally(c) for c in children(s))
 
 
 def value_only(g, m):
@@ -818,8 +814,10 @@ def report(ctx, ck):
                    '%d skeletons; %d differ%s' % (ck.n_k, len(ck.bad['K']), ('; first: ' + toks(ck.bad['K'][0][0].prog) + ' ' + ck.bad['K'][0][1]) if ck.bad['K'] else ''))
     ctx.obligation('corr:vm-vs-ref runVM(compileCF p) == refSem p', 'correspondence', not ck.bad['V'],
                    '%d programs; %d differ%s' % (ck.n_v, len(ck.bad['V']), ('; first: ' + toks(ck.bad['V'][0][0].prog) + ' ' + ck.bad['V'][0][1]) if ck.bad['V'] else ''))
-    ctx.obligation('corr:mechanism goja == mini-VM with today\'s quirks', 'correspondence', not ck.bad['W'],
-                   '%d programs (quirks cof=%s keepCatch=%s); %d differ%s' % (ck.n_w, ck.cof, ck.kc, len(ck.bad['W']), ('; first: ' + toks(ck.bad['W'][0][0].prog) + ' ' + ck.bad['W'][0][1]) if ck.bad['W'] else ''))
+    ctx.obligation('corr:mechanism goja == mini-VM on compileCF output', 'correspondence', not ck.bad['W'],
+                   '%d programs; %d differ%s' % (ck.n_w, len(ck.bad['W']), ('; first: ' + toks(ck.bad['W'][0][0].prog) + ' ' + ck.bad['W'][0][1]) if ck.bad['W'] else ''))
+    ctx.obligation('corr:compileS == compileCF on stage-1 programs', 'correspondence', not ck.bad['S'],
+                   '%d stage-1 programs; %d differ%s' % (ck.n_s1, len(ck.bad['S']), ('; first: ' + toks(ck.bad['S'][0][0].prog)) if ck.bad['S'] else ''))
     # known findings
     for q, n in ck.known.items():
         if n:
@@ -858,10 +856,6 @@ def main(ctx):
         # a stale driver must not be trusted when the build is broken
         model = None
     ck = Checker(ctx, h, model)
-    if h and model:
-        ck.probe()
-    elif h:
-        ck.kc = ck.cof = False
     if h:
         budget = float(os.environ.get('VERIF_C08_BUDGET', '600' if ctx.tier == 'thorough' else '55'))
         plan = []
@@ -888,7 +882,7 @@ def main(ctx):
     ctx.stats.update({'programs': ck.n_b, 'skeletons': ck.n_k, 'vm_vs_ref': ck.n_v, 'mechanism': ck.n_w,
                       'completion_kinds(ref)': ck.compl_hist, 'modes': ck.mode_hist, 'event_kinds(ref)': ck.ev_hist,
                       'max_finally_entries_in_one_run': ck.max_fin, 'known_defect_hits': ck.known,
-                      'quirk_flags_probed': {'closeOnFatal': ck.cof, 'keepCatch': ck.kc}})
+                      'stage1_programs(compileS==compileCF checked)': ck.n_s1})
     ctx.assumptions += [
         'the JavaScript translation (run/c08.py JS) of a program means what the Stmt constructors mean (instrumentation by log() calls only)',
         'exhaustive = every nesting chain of the stated depth over the stated level alphabet with every legal leaf; other program shapes are sampled',
@@ -1099,20 +1093,10 @@ def sites_check(ctx, h):
             ctx.nontriv('site ' + l)
         if o == e:
             continue
-        if i >= nfat0:
-            t = trim_after_fatal(o)
-            if t == e:
-                known += 1
-                first_known = first_known or (l, e, o)
-                continue
         bad.append((l, e, o))
     ctx.stats['sites'] = {'cases': len(lines), 'of which uncatchable': len(lines) - nfat0, 'sites': SITE_LIST, 'disagreements': len(bad), 'known_defect_hits': known}
     ctx.obligation('corr:sites built-in iteration sites == IteratorClose oracle (exhaustive n<=3, fail step<=2, 3 return() behaviours)', 'correspondence',
                    not bad, '%d cases; %d disagree%s' % (len(lines), len(bad), ('; first: %s expected[%s] goja[%s]' % bad[0]) if bad else ''))
-    if known:
-        l, e, o = first_known
-        ctx.violation(Q2, '%s reproduces on %d built-in iteration cases, e.g. [%s] goja[%s] spec[%s]' % (Q2, known, l, o, e),
-                      {'kind': 'site', 'line': l, 'expected': e, 'observed': o})
     for (l, e, o) in bad[:3]:
         ctx.violation('site:' + l, 'built-in iteration site deviates from IteratorClose rule: [%s] goja[%s] spec[%s]' % (l, o, e),
                       {'kind': 'site', 'line': l, 'expected': e, 'observed': o})
